@@ -43,6 +43,15 @@ pub struct ArrCase {
     /// array number: start index = n * 88 * spacing
     pub array_no: i32,
     pub ops: Vec<ArrOp>,
+    /// start from a (nearly) full array: every slot except these is initialized first, in the order given by `seed`
+    #[serde(default)]
+    pub prefill: Option<Prefill>,
+}
+
+#[derive(Clone, Debug, Serialize, Deserialize, Hash)]
+pub struct Prefill {
+    pub missing: Vec<i16>,
+    pub seed: u8,
 }
 
 pub struct Quad {
@@ -53,6 +62,12 @@ pub struct Quad {
     pub pf: Vec<u8>,
     pub pd: Vec<u8>,
     pub model: BTreeMap<usize, TickVal>,
+}
+
+const PANICKED: u64 = u64::MAX - 7;
+/// a panic inside an accessor is a failed call (error code PANICKED)
+fn nopanic(f: impl FnOnce() -> Result<(), u64>) -> Result<(), u64> {
+    crate::rt::try_call(f).unwrap_or(Err(PANICKED))
 }
 
 fn anchor_code(e: anchor_lang::error::Error) -> u64 {
@@ -114,22 +129,22 @@ impl Quad {
     fn update_all(&mut self, tick: i32, val: Option<&TickVal>) -> Result<[Result<(), u64>; 4], String> {
         let (au, pu) = upd(val);
         let sp = self.spacing;
-        let r_af = {
+        let r_af = nopanic(|| {
             let t: &mut FixedTickArray = bytemuck::from_bytes_mut(&mut self.af[8..]);
             t.update_tick(tick, sp, &au).map_err(anchor_code)
-        };
-        let r_ad = {
+        });
+        let r_ad = nopanic(|| {
             let t = DynamicTickArrayLoader::load_mut(&mut self.ad[8..]);
             t.update_tick(tick, sp, &au).map_err(anchor_code)
-        };
-        let r_pf = {
+        });
+        let r_pf = nopanic(|| {
             let t = unsafe { &mut *(self.pf.as_mut_ptr() as *mut MemoryMappedFixedTickArray) };
             t.update_tick(tick, sp, &pu).map_err(|e| u64::from(e))
-        };
-        let r_pd = {
+        });
+        let r_pd = nopanic(|| {
             let t = unsafe { &mut *(self.pd.as_mut_ptr() as *mut MemoryMappedDynamicTickArray) };
             t.update_tick(tick, sp, &pu).map_err(|e| u64::from(e))
-        };
+        });
         Ok([r_af, r_ad, r_pf, r_pd])
     }
 
@@ -186,7 +201,9 @@ impl Quad {
                 let rs = self.update_all(tick, val)?;
                 for (i, r) in rs.iter().enumerate() {
                     if r.is_ok() != want_slot.is_some() {
-                        return Err(format!("update of tick {tick}: implementation #{i} returned {r:?}, usable slot: {want_slot:?}"));
+                        let names = ["anchor-fixed", "anchor-dynamic", "pinocchio-fixed", "pinocchio-dynamic"];
+                        let what = if *r == Err(PANICKED) { "panicked".to_string() } else { format!("returned {r:?}") };
+                        return Err(format!("update of tick {tick} with {} ticks initialized: {} {what}, usable slot: {want_slot:?}", self.model.len(), names[i]));
                     }
                 }
                 if rs.iter().any(|r| *r != rs[0]) {
@@ -304,11 +321,28 @@ pub fn start_of(spacing: u16, array_no: i32) -> i32 {
 pub fn check_case(c: &ArrCase, l: &mut Local) -> Result<(), String> {
     let mut q = Quad::new(c.tick_spacing, start_of(c.tick_spacing, c.array_no));
     let (mut inits, mut deinits_between) = (0u32, 0u32);
+    if let Some(pf) = &c.prefill {
+        // ascending, descending, or a stride permutation of the 88 slots (strides coprime to 88)
+        let stride = [1usize, 87, 3, 5, 7, 13, 29, 43][(pf.seed % 8) as usize];
+        for k in 0..88usize {
+            let slot = ((k * stride + pf.seed as usize) % 88) as i16;
+            if pf.missing.contains(&slot) {
+                continue;
+            }
+            let v = TickVal { net: -(slot as i128 + 1) * 1_000_003, gross: (slot as u128 + 1) << 64, fa: u128::MAX - slot as u128, fb: slot as u128, r: [slot as u64, u64::MAX - slot as u64, u64::MAX] };
+            q.apply(&ArrOp::Set { slot, skew: 0, val: v }, l)?;
+        }
+        l.count(&format!("prefilled/{}_missing", pf.missing.len()));
+    }
+    let mut reached_full = q.model.len() == 88;
     for op in &c.ops {
         let before = q.model.clone();
         q.apply(op, l)?;
         if q.model.len() > before.len() {
             inits += 1;
+        }
+        if q.model.len() == 88 {
+            reached_full = true;
         }
         if q.model.len() < before.len() {
             if let ArrOp::Deinit { slot, .. } = op {
@@ -318,6 +352,9 @@ pub fn check_case(c: &ArrCase, l: &mut Local) -> Result<(), String> {
                 }
             }
         }
+    }
+    if reached_full {
+        l.count("sequences_reaching_all_88_initialized");
     }
     if inits >= 1 && deinits_between >= 1 {
         l.count("nontrivial_sequences");
@@ -357,9 +394,13 @@ fn case_strategy() -> BoxedStrategy<ArrCase> {
             let n = 88 * ts as i32;
             let min_no = MIN_TICK.div_euclid(n);
             let max_no = MAX_TICK.div_euclid(n);
-            (Just(ts), prop_oneof![3 => min_no..=max_no, 2 => Just(min_no), 1 => Just(max_no), 2 => -2i32..=1], prop::collection::vec(op_strategy(), 1..=120))
+            let prefill = prop_oneof![
+                5 => Just(None),
+                1 => (prop::collection::vec(0i16..88, 0..=3), any::<u8>()).prop_map(|(missing, seed)| Some(Prefill { missing, seed })),
+            ];
+            (Just(ts), prop_oneof![3 => min_no..=max_no, 2 => Just(min_no), 1 => Just(max_no), 2 => -2i32..=1], prop::collection::vec(op_strategy(), 1..=120), prefill)
         })
-        .prop_map(|(tick_spacing, array_no, ops)| ArrCase { tick_spacing, array_no, ops })
+        .prop_map(|(tick_spacing, array_no, ops, prefill)| ArrCase { tick_spacing, array_no, ops, prefill })
         .boxed()
 }
 
@@ -408,7 +449,7 @@ pub fn def() -> CheckDef {
                dynamic, Pinocchio fixed, Pinocchio dynamic); after every update all four buffers are decoded by the harness's own reader and compared with the map, \
                dynamic encodings must be well formed (bitmap == initialized set, 113/1 bytes per slot, used length 148+112n) and byte-equal between Anchor and \
                Pinocchio; answers and error codes must agree.  Exhaustive part: every subset of the slot set {0,1,63,64,65,86,87} as initial state x every single \
-               op on those slots, for 4 (spacing, start) configurations incl. the array straddling the minimum tick.  Non-trivial random sequence = >=1 initialize \
+               op on those slots, for 4 (spacing, start) configurations incl. the array straddling the minimum tick.  One random sequence in six starts from an array with all but 0..3 slots initialized (filled in ascending, descending or stride order), so the completely full array and its 10 004-byte encoding are reached.  Non-trivial random sequence = >=1 initialize \
                and >=1 de-initialize of a slot with initialized slots on both sides.",
         assumptions: vec!["H1 re-export hook for the Pinocchio types", "buffers carry the 10 KiB slack the loaders assume; de-initializing updates are all-default (what the program produces)"],
         subs: vec![
